@@ -335,7 +335,12 @@ func (k Keeper) ConvertGasFeesToUsdc(ctx sdk.Context, baseCurrency string, addre
 			continue
 		}
 
-		tokenOutAmount, err := k.amm.InternalSwapExactAmountIn(ctx, address, address, pool, tokenIn, baseCurrency, math.ZeroInt(), math.LegacyZeroDec())
+		// run the conversion on a cache context: a swap that fails must neither halt block processing nor leave partial effects
+		cacheCtx, write := ctx.CacheContext()
+		tokenOutAmount, err := k.amm.InternalSwapExactAmountIn(cacheCtx, address, address, pool, tokenIn, baseCurrency, math.ZeroInt(), math.LegacyZeroDec())
+		if err == nil {
+			write()
+		}
 		if err != nil {
 			// Continue as we can swap it when this amount is higher
 			if err == ammtypes.ErrTokenOutAmountZero {
@@ -349,7 +354,9 @@ func (k Keeper) ConvertGasFeesToUsdc(ctx sdk.Context, baseCurrency string, addre
 				})
 				continue
 			}
-			return sdk.Coins{}, err
+			// e.g. the oracle price of the fee denom is missing: keep the fee where it is and retry on a later block
+			ctx.Logger().Error("Gas fee conversion failed for denom: " + tokenIn.Denom + ": " + err.Error())
+			continue
 		}
 
 		// Swapped USDC coin
